@@ -3,6 +3,10 @@
 import json
 TX_NOTE = "Trusted: SimNet (stream-level model of one QUIC connection, semantics in DESIGN.md 2.4) instead of quic-go; the app shell around the engines is a stub (sender closes with code 0 on return, receiver exits without closing); the go/ast yield generator; testing/synctest; one fake clock for both nodes."
 checks = {
+ "C10": dict(level="exploration", design="3/C10",
+   text="The real thruserv main() (handlers, hub, session store, gorilla WebSocket, net/http) runs over simulated TCP; 1-3 sessions of scripted WebSocket clients join, reconnect with duplicate ids, stall, close or reset, and concurrently send addressed, broadcast, spoofed-from, foreign-session-id and malformed messages carrying unique tokens. The per-client receive logs are compared with a reference routing model with interval semantics: never a message from another session; from = the author's connect-time id; addressed messages only at the addressee, broadcasts never back at the author; no duplicates; per author-recipient order preserved; a message must be present at every recipient that had its peer_list before the send, kept reading to the end and has a unique id (author still connected); an unknown addressee is reported to the author and only to it.",
+   note="net/http and gorilla are real but not instrumented; SimTCP replaces the kernel. must-deliver is deliberately narrow (see assumptions in the evidence): everything around joins, leaves and replaced connections is 'may'.",
+   technique="deterministic simulation of the real server over simulated TCP with scripted clients; history check of receive logs against a reference routing model"),
  "C14": dict(level="exploration", design="3/C14",
    text="The real thruserv main() runs as a node over simulated TCP on a fake clock. Scenarios per run: join-code lifetime probed 1 ms before and after expiry for lifetimes from 1 s to 24 h, and around the host's disconnect; uniqueness of join codes among 20-50 live sessions with the code random source reduced to 256 values; concurrent bursts of session creations, receivers of one host and WebSocket connections against limits 1-3 and against 0 (disabled: every request must pass); message sizes around --max-message-bytes and message bursts against the per-connection token bucket. Oracle: a code admits exactly while its session lives; limits are never exceeded also under the interleavings the scheduler produces; 0 means no limit.",
    note="net/http and gorilla/websocket are real but not instrumented (they run freely between two scheduler events); SimTCP replaces the kernel; crypto/rand.Reader is a seeded reader. 0 = unlimited is checked only for the flags documented that way (--max-sessions, --max-receivers-per-sender, --max-ws-connections).",
